@@ -1170,7 +1170,17 @@ impl<'a> Model<'a> {
                 }
             }
 
-            original_cells.push((r.row, formula_or_value, style_idx, array));
+            // A plain value is moved as it is: re-typing its display text would re-interpret it
+            // (numbers lose the digits beyond the 15th, quote-prefixed text becomes a number)
+            let plain = match cell {
+                Cell::EmptyCell { .. }
+                | Cell::BooleanCell { .. }
+                | Cell::NumberCell { .. }
+                | Cell::ErrorCell { .. }
+                | Cell::SharedString { .. } => Some(cell.clone()),
+                _ => None,
+            };
+            original_cells.push((r.row, formula_or_value, style_idx, array, plain));
             let ws = self.workbook.worksheet_mut(sheet)?;
             ws.remove_cell(r.row, column)?;
         }
@@ -1207,7 +1217,13 @@ impl<'a> Model<'a> {
                     .set_column_width_and_style(c + 1, w, h, s)?;
             }
         }
-        for (r, value, style_idx, array) in original_cells {
+        for (r, value, style_idx, array, plain) in original_cells {
+            if let Some(cell) = plain {
+                self.workbook
+                    .worksheet_mut(sheet)?
+                    .update_cell(r, target_column, cell)?;
+                continue;
+            }
             if let Some(a) = array {
                 self.set_user_array_formula(sheet, r, target_column, a.0, a.1, &value)?;
             } else {
@@ -1314,7 +1330,16 @@ impl<'a> Model<'a> {
                     array = Some(*r);
                 }
             }
-            original_cells.push((*c, formula_or_value, style_idx, array));
+            // A plain value is moved as it is (see move_column_unchecked)
+            let plain = match cell {
+                Cell::EmptyCell { .. }
+                | Cell::BooleanCell { .. }
+                | Cell::NumberCell { .. }
+                | Cell::ErrorCell { .. }
+                | Cell::SharedString { .. } => Some(cell.clone()),
+                _ => None,
+            };
+            original_cells.push((*c, formula_or_value, style_idx, array, plain));
             let ws = self.workbook.worksheet_mut(sheet)?;
             ws.remove_cell(row, *c)?;
         }
@@ -1333,7 +1358,13 @@ impl<'a> Model<'a> {
                 }
             }
         }
-        for (c, value, style_idx, array) in original_cells {
+        for (c, value, style_idx, array, plain) in original_cells {
+            if let Some(cell) = plain {
+                self.workbook
+                    .worksheet_mut(sheet)?
+                    .update_cell(target_row, c, cell)?;
+                continue;
+            }
             if let Some(array_range) = array {
                 self.set_user_array_formula(
                     sheet,
